@@ -88,26 +88,55 @@ def main_c35(run):
     prepare_sources(run)
     invs = ["LocalsPopped", "InnerShadows", "CoreAvailable", "RequireBringsExactly", "Export"]
     n = 3 if q else 4
-    r = tlc.run("HyMacros", tlc.cfg(constants={"MaxEvents": n}, invariants=invs), run.work, workers=16, timeout=3400,
-                heap="16g", label="exh")
+    r = tlc.run("HyMacros", tlc.cfg(constants={"MaxEvents": n, "Focus": "all"}, invariants=invs), run.work, workers=16,
+                timeout=3400, heap="16g", label="exh")
     if r.violated:
         raise MachineryError(f"HyMacros: {r.violated} violated on the specification")
     run.add_tlc(r, f"HyMacros exhaustive: every history of {n} events")
     hists = r.ex("HIST")
+    # deep nestings of scopes with redefinitions of one name, exhaustively
+    nn = 7 if q else 9
+    r3 = tlc.run("HyMacros", tlc.cfg(constants={"MaxEvents": nn, "Focus": "nest"}, invariants=invs), run.work, workers=16,
+                 timeout=3400, heap="16g", label="nest")
+    if r3.violated:
+        raise MachineryError(f"HyMacros (nest): {r3.violated} violated")
+    run.add_tlc(r3, f"HyMacros exhaustive, nesting focus: every history of {nn} events over def/enter/exit/call/require *")
+    nest = r3.ex("HIST")
+
+    def shadowing(rec):
+        """a call that sees the same name bound in at least two open tables"""
+        tables = [set()]          # names bound per open scope (index 0 = module)
+        for e in rec["h"]:
+            if e["ev"] == "enter":
+                tables.append(set())
+            elif e["ev"] == "exit":
+                tables.pop()
+            elif e["ev"] == "def":
+                tables[-1].add(e["n"])
+            elif e["ev"] == "req":
+                tables[-1].update(["a", "b"])
+            elif e["ev"] == "call" and sum(1 for t in tables if e["n"] in t) >= 2:
+                return True
+        return False
+    hot = [x for x in nest if shadowing(x)]
+    cold = [x for x in nest if not shadowing(x)]
+    cap = 1200 if q else 40000
+    nest = (hot if len(hot) <= cap else rng.sample(hot, cap)) + rng.sample(cold, min(len(cold), 300 if q else 10000))
+    run.cov["nested_shadowing_histories"] = len(hot)
     # longer histories by simulation
-    r2 = tlc.run("HyMacros", tlc.cfg(constants={"MaxEvents": 7}, invariants=invs), run.work, workers=8,
+    r2 = tlc.run("HyMacros", tlc.cfg(constants={"MaxEvents": 7, "Focus": "all"}, invariants=invs), run.work, workers=8,
                  simulate=f"num={300 if q else 8000}", depth=9, seed=run.seed + 1, label="sim", timeout=3400)
     if r2.violated:
         raise MachineryError(f"HyMacros (simulation): {r2.violated} violated")
     run.add_tlc(r2, "HyMacros simulation: random histories of 7 events")
     sim = list({json.dumps(x, sort_keys=True): x for x in r2.ex("HIST")}.values())
     run.log(f"TLC: {r.distinct} states, {len(hists)} exhaustive + {len(sim)} simulated histories")
-    if len(hists) > (2500 if q else 60000):
-        hists = rng.sample(hists, 2500 if q else 60000)
-    if len(sim) > (1500 if q else 30000):
-        sim = rng.sample(sim, 1500 if q else 30000)
+    if len(hists) > (1500 if q else 60000):
+        hists = rng.sample(hists, 1500 if q else 60000)
+    if len(sim) > (1000 if q else 30000):
+        sim = rng.sample(sim, 1000 if q else 30000)
     nrun = 0
-    for hi, rec in enumerate(hists + sim):
+    for hi, rec in enumerate(hists + nest + sim):
         h = rec["h"]
         text = render_history(h)
         key = json.dumps([[e["ev"], e["n"]] for e in h])
